@@ -834,7 +834,7 @@ impl Ms {
                 r.class(),
                 match &r {
                     Res::Ok(_) => String::new(),
-                    x => format!(" ({})", x.err_text().chars().take(120).collect::<String>()),
+                    x => format!(" ({})", x.err_text().split_whitespace().collect::<Vec<_>>().join(" ").chars().rev().take(100).collect::<String>().chars().rev().collect::<String>()),
                 }
             ));
         }
